@@ -187,5 +187,10 @@ CLAIMS['C34'] = {
   'note': _TB + 'BOUNDED, not proved: the composition with ByteMatrix (get_memory/set_memory block = bytes) is only sampled natively (12/120 blocks per mode). Text modes (TextMemoryMapper) and pixel packing are not covered. Two defects found by these contracts were repaired in /repo (fix: commits 9fc0ff8a, 3336dfac).',
 }
 
+CLAIMS['C33'] = {
+  'text': 'Proof on the real Graphics._draw / _draw_step / point_ with the real macro-language parser: DRAW strings of concrete command structure (each of U D L R E F G H alone and after S; B and N prefixes; M+, M-, absolute M; C; blanks; multi-command sequences) with every count, coordinate, scale and colour symbolic over the whole Integer range: the pen ends at the sum of trunc(scale*offset/4) per axis (toward zero), absolute M sets the position, B suppresses the segment and N returns to the start for exactly one move, each drawn segment is one _draw_line(start, end, colour), POINT(0)/POINT(1) report the final position, and Illegal function call exactly for scale outside 1..255 or coordinates beyond +-9999; _draw_step for all offsets up to +-99999, all scales and both flags; literal limits (+-99999, +-9999), defaults and X substrings on concrete strings.',
+  'note': _TB + 'Command structure is a case parameter; float division by 4. is modelled as an exact quotient (valid below 2**53, checked); _draw_line is taken by contract (C31 is not claimed); angle turning (A, TA), P and WINDOW are not covered.',
+}
+
 NOT_APPLICABLE = {
 }
